@@ -1803,3 +1803,87 @@ def tab21(units, R):
          'all 22 digits evaluated' if not bad and seen >= want else 'wrong values %s, unevaluated %s' % (bad[:6], sorted(want - seen)[:6]),
          key='hexvalues')
     R.floor('TAB21', 'digit contributions found', len(contrib), 1)
+
+
+# ---- NUM2: the number token ends where the conversion stopped ---------------------------------------------------------------
+
+def num2(units, R):
+    """parse_number converts a copy of the input with strtod; the part of the input that belongs to the number is what strtod
+    consumed, so every store that advances the buffer offset adds exactly `end - start` of that conversion (directly or through a
+    local defined once as that difference).  Advancing by anything else - the length of the run of number characters that was
+    copied, a constant - makes trailing garbage part of the number ("12-34" accepted as 12) or cuts the number short."""
+    u = units['cJSON.c']
+    fn = u.fn('parse_number')
+    convs = [c for c in fn.calls() if callee_name(c) in ('strtod', 'strtold', 'strtof') and len(c['args']) >= 2]
+    if len(convs) != 1:
+        raise AnalysisBroken('NUM2: parse_number does not convert with exactly one strtod call (%d found)' % len(convs))
+    c = convs[0]
+    start = expr_str(strip_casts(c['args'][0]))
+    e = strip_casts(c['args'][1])
+    if not (e.get('k') == 'un' and e['op'] == '&' and is_ref(e['e'])):
+        raise AnalysisBroken('NUM2: the end pointer of strtod is not the address of a local')
+    endv = strip_casts(e['e'])
+
+    def is_consumed(x, depth=0):
+        x = strip_casts(x)
+        if x.get('k') == 'bin' and x['op'] == '-':
+            l, r = strip_casts(x['l']), strip_casts(x['r'])
+            return l.get('k') == 'ref' and l['d'] == endv['d'] and expr_str(r) == start
+        if x.get('k') == 'ref' and x.get('dk') == 'local' and depth < 3:
+            defs = [d['init'] for d in fn.locals() if d['d'] == x['d'] and 'init' in d and const_val(d['init']) != 0]
+            defs += [a['r'] for a in assignments(fn) if is_ref(a['l']) and strip_casts(a['l'])['d'] == x['d']]
+            return len(defs) == 1 and is_consumed(defs[0], depth + 1)
+        return False
+    n = 0
+    for a in assignments(fn):
+        if not is_mem(a['l'], 'offset'):
+            continue
+        n += 1
+        ok = a['op'] == '+=' and is_consumed(a['r'])
+        R.ob('NUM2', fn, a, 'the offset advances by what strtod consumed', ok,
+             '%s - %s' % (endv['n'], start) if ok else 'advances by %s, not by %s - %s: bytes strtod did not convert become part of the number '
+             '(or converted ones are left behind)' % (expr_str(strip_casts(a['r']))[:40], endv['n'], start), key='advance')
+    R.floor('NUM2', 'offset stores in parse_number', n, 1)
+
+
+# ---- NUM3: a hoisted scan bound covers all of the remaining input --------------------------------------------------------
+
+def num3(units, R):
+    """Where parse_number bounds its scan of the input by a variable (`for (i = 0; i < limit; i++)`) instead of testing the buffer
+    for every byte, each value assigned to that variable from the remaining input must be all of it: `length - offset`, not
+    `length - offset - 1` (the last readable byte would never be looked at, so a number that ends the buffer loses its last digit).
+    Constants (the size of the temporary buffer) and copies of such bounds are fine."""
+    u = units['cJSON.c']
+    fn = u.fn('parse_number')
+    cfg = fn.cfg()
+    # variables that bound a loop which reads the input
+    bounds = {}
+    for b in cfg.nodes:
+        if b.kind != 'branch':
+            continue
+        e = strip_casts(b.expr)
+        if e.get('k') == 'bin' and e['op'] in ('<', '!=', '<=') and is_ref(e['l']) and is_ref(e['r']):
+            v = strip_casts(e['r'])
+            if v.get('dk') == 'local' and u.ty(v.get('ty0', v['ty']))['c'] == 'int':
+                # is the branch the condition of a loop (it can reach itself) whose body reads through a pointer / the cursor?
+                if b.id in cfg.reachable(b.id):
+                    bounds[v['d']] = (v['n'], e['op'])
+    n = 0
+    for d, (name, op) in bounds.items():
+        srcs = [(x, x['init']) for x in fn.locals() if x['d'] == d and 'init' in x]
+        srcs += [(a, a['r']) for a in assignments(fn) if is_ref(a['l']) and strip_casts(a['l'])['d'] == d and a['op'] == '=']
+        for (node, rhs) in srcs:
+            r = strip_casts(rhs)
+            c = 0
+            while r.get('k') == 'bin' and r['op'] in ('-', '+') and const_val(r['r']) is not None:
+                c += const_val(r['r']) if r['op'] == '-' else -const_val(r['r'])
+                r = strip_casts(r['l'])
+            if r.get('k') == 'bin' and r['op'] == '-' and is_mem(r['l'], 'length') and is_mem(r['r'], 'offset'):
+                n += 1
+                short = c + (1 if op == '<=' else 0)
+                R.ob('NUM3', fn, rhs, 'the scan bound %s taken from the remaining input covers all of it' % name, short <= 0,
+                     'length - offset' if short <= 0 else
+                     '%s = length - offset - %d used as `i %s %s`: the last %d readable byte(s) are never examined, a number at the very '
+                     'end of an exact-length buffer loses them' % (name, c, op, name, short), key='bound:%s' % name)
+    R.ob('NUM3', None, None, 'hoisted scan bounds of parse_number examined', True, '%d taken from the remaining input' % n,
+         key='census', file='cJSON.c', line=0)
